@@ -15,10 +15,13 @@ class AsyncioSingleTask:
         async with self._lock:
             if self._handle is not None:
                 self._handle.cancel()
-                try:
-                    await self._handle
-                except asyncio.CancelledError:
-                    pass
+                # Wait for it to finish without adopting its
+                # cancellation: awaiting the handle and swallowing
+                # CancelledError would also swallow a cancellation of
+                # the task that is waiting here.
+                await asyncio.wait([self._handle])
+                if not self._handle.cancelled():
+                    self._handle.result()
 
             coro = action()
             try:
@@ -33,10 +36,13 @@ class AsyncioSingleTask:
         async with self._lock:
             if self._handle is not None:
                 self._handle.cancel()
-                try:
-                    await self._handle
-                except asyncio.CancelledError:
-                    pass
+                # Wait for it to finish without adopting its
+                # cancellation: awaiting the handle and swallowing
+                # CancelledError would also swallow a cancellation of
+                # the task that is waiting here.
+                await asyncio.wait([self._handle])
+                if not self._handle.cancelled():
+                    self._handle.result()
 
             self._handle = None
 
